@@ -55,10 +55,12 @@ EXHAUSTIVE = True
 EXHAUSTIVE_SCOPE = {
     "quick": "api: all sequences len<=4 over 8 calls x 2 initial docs, all command sequences len<=4 over 7 commands; "
              "keys: all sequences len<=3 over 9 emacs keys and 9 vi keys; fully modelled emacs keys: all sequences "
-             "len<=4 over {a, b, backspace, left, c-k, c-_, redo}",
+             "len<=4 over {a, b, backspace, left, c-k, c-_, redo}; fully modelled vi keys: all sequences len<=4 over "
+             "{i, a, x, u, escape, redo}",
     "thorough": "api: all sequences len<=5 over 8 calls x 2 initial docs, all command sequences len<=6 over 7 commands; "
                 "keys: all sequences len<=4 over 9 emacs keys and 9 vi keys; fully modelled emacs keys: all sequences "
-                "len<=5 over {a, b, backspace, left, c-k, c-_, redo}"}
+                "len<=5 over {a, b, backspace, left, c-k, c-_, redo}; fully modelled vi keys: all sequences len<=6 over "
+                "{i, a, x, u, escape, redo}"}
 TRUSTED = ["harness/c07.py observes every KeyProcessor._call_handler call by wrapping the bound method on the instance "
            "(the real method runs unchanged inside) and counts Buffer.undo()/redo()/save_to_undo_stack() calls the same way",
            "the save_before rule of a binding is read by calling binding.save_before on two stub events (is_repeat False/True)",
@@ -355,6 +357,7 @@ async def _session(case):
                 "fed": fed["i"], "key": fed["key"], "nkeys": len(key_sequence),
                 "name": getattr(handler.handler, "__name__", "?"), "insert": insert and not sel,
                 "bkeys": [getattr(x, "value", x) for x in handler.keys],
+                "ins_after": app.vi_state.input_mode == InputMode.INSERT,
                 "data": key_sequence[-1].data if key_sequence else "",
             })
 
@@ -612,6 +615,39 @@ def ekeys_impl(case):
     return out
 
 
+# ------------------------------------------------------------------ fully modelled vi keys
+VKEYS = ["i", "a", "x", "u", "escape", "f12"]
+V_HID = {"self_insert": 0, "_redo": 10, "_back_to_navigation": 20, "_i": 21, "_a": 22, "_delete": 23, "_undo": 24}
+
+
+def _vkeys_as_keys(case):
+    return {"kind": "keys", "mode": "vi", "multiline": bool(case.get("multiline")), "text": case["text"],
+            "cur": case["cur"], "history": [], "ops": [[n, d] for n, d in case["ops"]]}
+
+
+def vkeys_model(case):
+    return [f"vinit {enc_str(case['text'])} {case['cur']}"] + [f"vkey {name}" for name, _ in case["ops"]]
+
+
+def vkeys_impl(case):
+    tr = trace(_vkeys_as_keys(case))
+    out = [state_line(case["text"], case["cur"], "N", [], []) + " I"]
+    for r in tr["recs"]:
+        hid = V_HID.get(r["name"], f"?{r['name']}")
+        if r["prev"] != r["h"]:
+            hid = f"prev-not-updated({hid})"
+        out.append(state_line(r["post"][0], r["post"][1], hid, r["U"], r["R"]) + (" I" if r["ins_after"] else " N"))
+    return out
+
+
+def _as_keys(case):
+    if case["kind"] == "ekeys":
+        return _ekeys_as_keys(case)
+    if case["kind"] == "vkeys":
+        return _vkeys_as_keys(case)
+    return case
+
+
 # ------------------------------------------------------------------ generators
 API_ALPHA = [["save", 1], ["save", 0], ["ins", "a"], ["ins", "b"], ["delb", 1], ["cur", 0], ["undo"], ["redo"]]
 CMD_ALPHA = {
@@ -764,9 +800,29 @@ def cases(tier, rng):
             k = rng.choice(EKEYS + ["a", "b", "世", " ", "c-_", "c-_", "f12", "c-h"])
             ops.append([k, k if len(k) == 1 else None])
         ecases.append({"kind": "ekeys", "multiline": "\n" in text, "text": text, "cur": cur, "ops": ops})
-    _warm(kcases + [_ekeys_as_keys(c) for c in ecases])
+    # ---- fully modelled vi keys
+    vcases = []
+    maxlen = 4 if quick else 6
+    for n in range(1, maxlen + 1):
+        for tup in itertools.product(VKEYS, repeat=n):
+            m = n % 3
+            vcases.append({"kind": "vkeys", "multiline": m == 2, "text": ["", "xy", "ab\ncd"][m], "cur": [0, 1, 2][m],
+                           "ops": [[k, k if len(k) == 1 else None] for k in tup]})
+    for _ in range(400 if quick else 6000):
+        n = rng.choice([0, 1, 2, 3, 6, 12])
+        text = "".join(rng.choice(["a", "b", " ", "x", "\n", "世"]) for _ in range(n))
+        if rng.random() < 0.5:
+            text = text.replace("\n", " ")
+        cur = rng.choice([0, len(text), rng.randrange(0, len(text) + 1)])
+        ops = []
+        for _ in range(rng.randrange(1, 30)):
+            k = rng.choice(VKEYS + ["escape", "u", "i"])
+            ops.append([k, k if len(k) == 1 else None])
+        vcases.append({"kind": "vkeys", "multiline": "\n" in text, "text": text, "cur": cur, "ops": ops})
+    _warm(kcases + [_as_keys(c) for c in ecases + vcases])
     yield from kcases
     yield from ecases
+    yield from vcases
 
 
 def _trace_worker(chunk):
@@ -801,18 +857,18 @@ def _warm(kcases):
 
 # ------------------------------------------------------------------ plugin interface
 def model_lines(case):
-    return {"api": api_model, "keys": keys_model, "ekeys": ekeys_model}[case["kind"]](case)
+    return {"api": api_model, "keys": keys_model, "ekeys": ekeys_model, "vkeys": vkeys_model}[case["kind"]](case)
 
 
 def impl_lines(case):
-    return {"api": api_impl, "keys": keys_impl, "ekeys": ekeys_impl}[case["kind"]](case)
+    return {"api": api_impl, "keys": keys_impl, "ekeys": ekeys_impl, "vkeys": vkeys_impl}[case["kind"]](case)
 
 
 def oracle(case):
     if case["kind"] == "api":
         v = api_oracle(case)
     else:
-        v = keys_oracle(_ekeys_as_keys(case) if case["kind"] == "ekeys" else case)
+        v = keys_oracle(_as_keys(case))
     seen, out = set(), []
     for x in v:
         if x["signature"] not in seen:
@@ -824,7 +880,7 @@ def oracle(case):
 def nontrivial(case):
     if case["kind"] == "api":
         return any(o[0] in ("undo", "redo") for o in case["ops"]) and any(o[0] == "save" for o in case["ops"])
-    tr = trace(_ekeys_as_keys(case) if case["kind"] == "ekeys" else case)
+    tr = trace(_as_keys(case))
     return any(r["atoms"] and tuple(r["pre"]) != tuple(r["post"]) for r in tr["recs"])
 
 
@@ -837,8 +893,7 @@ def distribution(cases):
          "grouped_calls(no save at boundary)": 0, "sessions_cut_short": {}}
     for c in cases:
         k = c["kind"] + ("/" + c["mode"] if c["kind"] == "keys" else "")
-        if c["kind"] == "ekeys":
-            c = _ekeys_as_keys(c)
+        c = _as_keys(c)
         d["kind"][k] = d["kind"].get(k, 0) + 1
         n = len(c["ops"])
         key = str(n) if n < 8 else ("8-15" if n < 16 else "16+")
